@@ -1,12 +1,13 @@
 """Contracts for kopf._cogs.clients.watching: continuous_watch (W1), streaming_block / infinite_watch (W2),
 and for kopf._core.reactor.orchestration.adjust_tasks (O2, bounded)."""
 import asyncio
+import sys
 
 import aiohttp
 
 from pyvc import *
 from pyvc.loader import _STOP
-from pyvc.stubs import Opaque, NullLogger, exception_reps
+from pyvc.stubs import Opaque, NullLogger, Clock, StubLoop, exception_reps
 from kopf._cogs.clients import errors, watching
 
 KNOWN_TYPES = ('ADDED', 'MODIFIED', 'DELETED', 'BOOKMARK')      # the Kubernetes watch event types that carry an object
@@ -60,7 +61,8 @@ def event_rv(item):
                   'known_events_passed_through', 'unknown_types_skipped', 'gone_returns', 'error_raises',
                   'listing_connection_errors_return', 'other_failures_propagate', 'pause_stops_watching', 'frame',
                   'watch_request', 'watch_resumes_from_since', 'watch_closed_on_pause', 'watch_events_passed_through',
-                  'watch_disconnects_end_silently'],
+                  'watch_disconnects_end_silently', 'watch_asks_for_bookmarks', 'watch_timeouts_from_settings',
+                  'watch_inactivity_timeout', 'watch_inactivity_window_restarts_per_event'],
          canaries=['canary.always_lists_ok', 'canary.never_raises', 'canary.every_event_yielded', 'canary.version_never_moves',
                    'canary.watch_never_raises'],
          trusted=['fetching.list_objs: one list request; returns (objects, resourceVersion | None) or raises',
@@ -85,7 +87,12 @@ def W1(vc):
     Scenario `watch_objs` (the callee's half of the chain; loop contract on the event loop) -- exactly one streaming
     request whose URL parameters say watch=true and resourceVersion == since (absent for None), with
     stopper == the pause waiter (a pause closes the stream); every received event is yielded unchanged;
-    disconnects and (inactivity/client) timeouts end the generator silently, everything else propagates.
+    disconnects and (inactivity/client) timeouts end the generator silently, everything else propagates;
+    the request asks for bookmarks; the documented timeouts reach the request (server_timeout -> ?timeoutSeconds=,
+    client_timeout -> total, watching.connect_timeout / networking.connect_timeout / networking.request_timeout ->
+    sock_connect); on Python >= 3.11 the stream is consumed under one asyncio.timeout(inactivity_timeout) whose
+    deadline is moved to a full window after every received event (Python 3.10: documented as unprotected, but
+    everything else must hold there too).
     """
     if vc.nondet(2, 'scenario: continuous / watch_objs') == 1:
         return _w1_watch_objs(vc)
@@ -98,10 +105,19 @@ def _w1_watch_objs(vc):
     namespace = Opaque('namespace')
     inactivity = vc.real('settings.watching.inactivity_timeout')         # typed `float` (default 70.0), never None
     vc.assume(inactivity > 0, 'a timeout is positive')
-    ws = Opaque('settings.watching', server_timeout=[None, 30][vc.nondet(2, 'server_timeout')], connect_timeout=None,
-                client_timeout=None, inactivity_timeout=inactivity)
-    settings = Opaque('settings', watching=ws, networking=Opaque('settings.networking', connect_timeout=None, request_timeout=5))
-    ghost = {'stream': None, 'cur': None, 'thrown': None}
+    # the documented timeouts (docs/configuration.rst): each Optional one both unset and set
+    server_timeout, client_timeout = [(None, 600), (30, None)][vc.nondet(2, 'server_timeout / client_timeout')]
+    w_connect, n_connect = [(None, None), (None, 3), (7, None), (7, 3)][vc.nondet(4, 'watching/networking connect_timeout')]
+    want_connect = w_connect if w_connect is not None else n_connect if n_connect is not None else 5
+    ws = Opaque('settings.watching', server_timeout=server_timeout, connect_timeout=w_connect,
+                client_timeout=client_timeout, inactivity_timeout=inactivity)
+    settings = Opaque('settings', watching=ws, networking=Opaque('settings.networking', connect_timeout=n_connect, request_timeout=5))
+    # the interpreter: 3.10 (supported by pyproject, documented as "no inactivity tracking"), the first one with
+    # asyncio.timeout(), and the one running this check
+    pyver = [(3, 10, 19, 'final', 0), (3, 11, 0, 'final', 0), tuple(sys.version_info)][vc.nondet(3, 'python version')]
+    tracks_inactivity = pyver >= (3, 11)
+    clock = Clock('loop.time')
+    ghost = {'stream': None, 'cur': None, 'thrown': None, 'received_at': None}
     resource = Opaque('resource')
     resource.get_url = lambda **kw: (vc.emit('get_url', kw), Opaque('url', kw=kw))[1]
     silent = (TimeoutError, aiohttp.ClientConnectionError, aiohttp.ClientPayloadError)
@@ -113,10 +129,17 @@ def _w1_watch_objs(vc):
         return ghost['stream']
 
     class Timeout:
+        """asyncio.timeout(delay) by contract: active between __aenter__ and __aexit__; reschedule(when) moves the
+        deadline (loop time); expiry raises TimeoutError into the body (modelled as an exception of the stream)."""
+        def __init__(self, delay):
+            vc.emit('timeout.created', delay)
+
         async def __aenter__(self):
+            vc.emit('timeout.enter')
             return self
 
         async def __aexit__(self, et, e, tb):
+            vc.emit('timeout.exit')
             return False
 
         def reschedule(self, when):
@@ -124,10 +147,12 @@ def _w1_watch_objs(vc):
 
     async def element(loc, iterable):
         vc.ensure('watch_request', iterable is ghost['stream'])
+        vc.emit('stream.next')
         await suspend('api.stream.next')
         k = vc.nondet(2 + len(reps), 'api.stream: event / EOF / raises')
         if k == 0:
             ghost['cur'] = Opaque('raw-input')
+            ghost['received_at'] = clock.now
             return ghost['cur']
         if k == 1:
             return _STOP
@@ -138,6 +163,13 @@ def _w1_watch_objs(vc):
         if _in_loop(vc, 1):
             ys = [e[1] for e in _since_head(vc, 1) if e[0] == 'yield']
             vc.ensure('watch_events_passed_through', len(ys) == 1 and ys[0] is ghost['cur'])
+            if tracks_inactivity:
+                # docs: inactivity_timeout "is how long the watch stream is allowed to stay completely silent --
+                # delivering no events, not even bookmarks": every received event re-arms the deadline, to a full
+                # window counted from some moment between its receipt and the wait for the next one
+                rs = [e[1] for e in _since_head(vc, 1) if e[0] == 'reschedule']
+                vc.ensure('watch_inactivity_window_restarts_per_event',
+                          len(rs) >= 1 and And(rs[-1] >= ghost['received_at'] + inactivity, rs[-1] <= clock.now + inactivity))
         return True
 
     async def consume(agen):
@@ -146,16 +178,18 @@ def _w1_watch_objs(vc):
             await suspend('consumer')
     vc.used('api.stream', 'trusted'); vc.used('asyncio.timeout', 'trusted')
     ld = vc.load('kopf._cogs.clients.watching', 'watch_objs', stubs={
-        'api.stream': stream, 'asyncio.timeout': lambda t: Timeout(), 'logger': NullLogger(),
-        'asyncio.get_running_loop': lambda: Opaque('loop', time=lambda: 0)},
+        'api.stream': stream, 'asyncio.timeout': Timeout, 'logger': NullLogger(), 'sys.version_info': pyver,
+        'asyncio.get_running_loop': lambda: StubLoop(clock)},
         loops={1: LoopSpec('async for raw_input in api.stream(', invariant=inv, element=element,
                            havoc=lambda loc: havoc_rest(vc, loc, ('settings', 'resource', 'namespace', 'since',
                                                                   'operator_pause_waiter', 'params', 'connect_timeout',
                                                                   'timeout', 'timeout_cm')))})
+    def on_suspend(site):
+        clock.advance()          # time passes at every suspension point (waiting for the stream; the consumer at work)
     raised = None
     try:
         vc.drive(consume(ld.fn(settings=settings, resource=resource, namespace=namespace, since=since,
-                               operator_pause_waiter=waiter)))
+                               operator_pause_waiter=waiter)), on_suspend=on_suspend)
     except BaseException as e:
         if isinstance(e, (Unsupported, PathEnd)):
             raise
@@ -170,11 +204,31 @@ def _w1_watch_objs(vc):
     vc.ensure('watch_resumes_from_since', ('resourceVersion' not in params) if since is None
               else ('resourceVersion' in params and Eq(params['resourceVersion'], since)))
     vc.ensure('watch_closed_on_pause', kw.get('stopper') is waiter)
+    # docs: Kopf >= 1.44 relies on bookmark events (the server's 60 s heartbeat keeps a quiet stream inside the inactivity
+    # window and its resume version fresh): they must be asked for
+    vc.ensure('watch_asks_for_bookmarks', params.get('allowWatchBookmarks') == 'true')
+    # docs: server_timeout "is passed to the server-side in a query string" (None: the server's own setup);
+    # client_timeout limits the whole session; the TCP handshake is limited by watching.connect_timeout, else
+    # networking.connect_timeout, else networking.request_timeout (as aiohttp's sock_connect)
+    vc.ensure('watch_timeouts_from_settings', ('timeoutSeconds' not in params) if server_timeout is None
+              else str(params.get('timeoutSeconds')) == str(server_timeout))
+    ct = kw.get('timeout')
+    vc.ensure('watch_timeouts_from_settings', isinstance(ct, aiohttp.ClientTimeout) and ct.total == client_timeout
+              and ct.sock_connect == want_connect)
+    names = [ev[0] for ev in vc.trace]
+    if tracks_inactivity:
+        # the whole streaming happens under ONE asyncio.timeout(inactivity_timeout)
+        made = [ev[1] for ev in vc.trace if ev[0] == 'timeout.created']
+        vc.ensure('watch_inactivity_timeout', len(made) == 1 and Eq(made[0], inactivity))
+        vc.ensure('watch_inactivity_timeout', names.count('timeout.enter') == 1 and names.count('timeout.exit') <= 1)
+        lo = names.index('timeout.enter') if 'timeout.enter' in names else len(names)
+        hi = names.index('timeout.exit') if 'timeout.exit' in names else len(names)
+        vc.ensure('watch_inactivity_timeout', all(lo < i < hi for i, n in enumerate(names) if n == 'stream.next'))
     thrown = ghost['thrown']
     vc.ensure('watch_disconnects_end_silently', Implies(thrown is None or isinstance(thrown, silent), raised is None))
     vc.ensure('other_failures_propagate', Implies(thrown is not None and not isinstance(thrown, silent), raised is thrown))
     vc.canary('canary.watch_never_raises', raised is None)
-    return ('watch_objs', type(thrown).__name__, type(raised).__name__)
+    return ('watch_objs', pyver[:2], type(thrown).__name__, type(raised).__name__)
 
 
 def _w1_continuous(vc):
@@ -484,7 +538,9 @@ def _w2_block(vc):
 
 
 def _w2_infinite(vc):
-    settings = Opaque('settings', watching=Opaque('settings.watching', reconnect_backoff=vc.real('reconnect_backoff')))
+    backoff = vc.real('reconnect_backoff')
+    vc.assume(backoff >= 0, 'a duration')
+    settings = Opaque('settings', watching=Opaque('settings.watching', reconnect_backoff=backoff))
     resource, namespace = Opaque('resource'), [None, 'ns1'][vc.nondet(2, 'namespace')]
     paused = _ToggleSetStub(vc)
     iterations = vc.opt('_iterations', vc.int)          # None at the real call site (queueing.watcher); ints in tests
@@ -557,6 +613,13 @@ def _w2_infinite(vc):
             thrown = ghost['thrown']
             vc.ensure('inf.only_429_swallowed', thrown is None or isinstance(thrown, errors.APITooManyRequestsError))
             vc.canary('canary.nothing_swallowed', thrown is None)
+            # docs/configuration.rst: reconnect_backoff "is a backoff interval between watching requests -- to prevent API
+            # flooding in case of errors or disconnects": after the last use of this round's stream and before the next
+            # round, the generator sleeps for settings.watching.reconnect_backoff (also after a swallowed 429).
+            tr = _since_head(vc, 1)
+            last_use = max(i for i, e in enumerate(tr) if e[0] in ('cw.created', 'cw.next'))
+            vc.ensure('inf.backoff_between_reconnects',
+                      Or(False, *[Eq(e[1], backoff) for e in tr[last_use + 1:] if e[0] == 'backoff']))
         return True
 
     def inv2(loc):
@@ -607,7 +670,7 @@ def _w2_infinite(vc):
          clauses=['block.body_entered_once', 'block.waits_until_unpaused', 'block.waiter_signals_pause', 'block.waiter_released',
                   'block.body_failure_propagates',
                   'inf.requests_only_inside_block', 'inf.passes_the_pause_waiter', 'inf.fresh_listing_per_iteration',
-                  'inf.events_passed_through', 'inf.only_429_swallowed',
+                  'inf.events_passed_through', 'inf.only_429_swallowed', 'inf.backoff_between_reconnects',
                   'inf.other_failures_propagate', 'inf.never_ends_in_production'],
          canaries=['canary.block_never_waits', 'canary.nothing_swallowed', 'canary.inf_never_returns'],
          trusted=['aiotoggles.ToggleSet.is_on/wait_for: shared state, havocked at suspension points; wait_for(s) returns when is_on()==s',
@@ -623,7 +686,9 @@ def W2(vc):
     Scenario `infinite` -- infinite_watch (loop contracts on the reconnect loop and on the event loop): every
     continuous_watch is created and iterated only inside a streaming_block (hence never while paused) and gets
     that block's pause-waiter; each iteration of the outer loop opens one block with ONE NEW continuous_watch
-    (which starts with a fresh listing, W1); events are yielded unchanged;
+    (which starts with a fresh listing, W1); events are yielded unchanged; between the end of one round's stream and
+    the next round the generator sleeps for settings.watching.reconnect_backoff (documented: no API flooding on
+    errors/disconnects);
     the only exception swallowed is APITooManyRequestsError (and subclasses), every other one -- APIError,
     WatchingError, cancellation -- propagates after the block was left; in production (_iterations=None) the
     generator never ends by itself.
@@ -642,12 +707,13 @@ from pyvc.bounded import bounded
                         'kopf._core.reactor.orchestration.spawn_missing_peerings',
                         'kopf._core.reactor.orchestration.Ensemble.get_keys', 'kopf._core.reactor.orchestration.Ensemble.get_tasks',
                         'kopf._core.reactor.orchestration.Ensemble.del_keys'],
-         props=['C19'],
+         props=['C13', 'C19'],
          clauses=['one_watch_per_served_pair', 'none_for_anything_else', 'keys_match_served_pairs', 'stopped_before_deletion',
-                  'peering_streams_match'],
+                  'peering_streams_match', 'paused_iff_mandatory_peering_is_absent'],
          universe='resources {A namespaced, B cluster-scoped | A, C both namespaced} x watched subsets (4) x namespaces: '
                   'cluster-wide {None} | subsets of {ns1,ns2,ns3} (8) x peering {standalone, optional absent, optional present, '
-                  'mandatory present} x every prior ensemble reachable by ONE earlier adjust_tasks call of the same universe '
+                  'mandatory present, mandatory absent, mandatory appearing before the last call, optional present with a '
+                  'CLUSTER-scoped kopfpeerings CRD while the operator serves named namespaces} x every prior ensemble reachable by ONE earlier adjust_tasks call of the same universe '
                   '(exhaustive) and by TWO earlier calls (sampled in the quick tier, exhaustive in the thorough tier); '
                   'the real adjust_tasks/terminate_redundancies/spawn_missing_*/Ensemble/aiotasks.stop/ToggleSet run on a real '
                   'event loop, only queueing.watcher and peering.keepalive are replaced by idle coroutines that count themselves')
@@ -658,7 +724,12 @@ def O2(b):
     (resource, namespace-or-None-for-cluster-scoped) over watched resources x namespaces, none for anything else;
     Ensemble.watcher_tasks has exactly those keys; at the moment Ensemble.del_keys removes a key all its tasks are
     already done; with peering enabled the peering watch-streams/keep-alives/toggles are exactly one per
-    (peering resource, namespace-or-None).  Precondition from the call sites: cluster-wide mode (None in namespaces)
+    (peering resource, namespace-or-None) -- also when the peering CRD found in the cluster is cluster-scoped while the
+    operator serves named namespaces (a legacy/mis-scoped CRD: ONE cluster-wide stream, not one per namespace);
+    docs/peering.rst "If the peering object does not exist, the operator will pause at the start" (mandatory mode;
+    in the optional mode it "will not pause if it is absent"): the `peering CRD is missing` toggle is ON -- and
+    hence the operator paused, so that nothing is listed or watched (W2) -- exactly when the peering is mandatory and
+    no peering resource is known, and it is OFF again once the resource appears.  Precondition from the call sites: cluster-wide mode (None in namespaces)
     is fixed for the operator's life.  Unconstrained corners (DESIGN C19): cluster-scoped resources while
     namespaces == {} (the code keeps an existing watcher but would not start one); a resource that is both watched
     and the peering resource (excluded from the universe).
@@ -677,6 +748,7 @@ def O2(b):
     C = references.Resource('example.com', 'v1', 'gammas', namespaced=True)
     PK = references.Resource('kopf.dev', 'v1', 'kopfpeerings', namespaced=True)
     PC = references.Resource('kopf.dev', 'v1', 'clusterkopfpeerings', namespaced=False)
+    PKC = references.Resource('kopf.dev', 'v1', 'kopfpeerings', namespaced=False)      # a cluster-scoped `kopfpeerings` CRD
     active = {'watch': collections.Counter(), 'peering': collections.Counter(), 'ping': collections.Counter()}
 
     async def idle(kind, key):
@@ -714,7 +786,7 @@ def O2(b):
             c.clear()
         settings = kopf.OperatorSettings()
         settings.peering.standalone = peering_mode == 'standalone'
-        settings.peering.mandatory = peering_mode == 'mandatory-present'
+        settings.peering.mandatory = peering_mode.startswith('mandatory')
         clusterwide = None in steps[-1][1] or any(None in ns for _, ns in steps)
         settings.peering.clusterwide = clusterwide
         operator_paused = aiotoggles.ToggleSet(any)
@@ -722,11 +794,14 @@ def O2(b):
                                      peering_missing=await operator_paused.make_toggle(name='peering CRD is missing'))
         insights = references.Insights()
         presource = None
-        if peering_mode in ('optional-present', 'mandatory-present'):
-            presource = PC if clusterwide else PK
-            await insights.backbone.fill(resources=[presource])
+        if peering_mode in ('optional-present', 'mandatory-present', 'mandatory-appears', 'optional-present-clusterscoped'):
+            presource = PC if clusterwide else PKC if peering_mode == 'optional-present-clusterscoped' else PK
+            if peering_mode != 'mandatory-appears':
+                await insights.backbone.fill(resources=[presource])
         try:
             for i, (watched, namespaces) in enumerate(steps):
+                if peering_mode == 'mandatory-appears' and i == len(steps) - 1:
+                    await insights.backbone.fill(resources=[presource])     # the CRD is discovered before the last call
                 insights.watched_resources.clear(); insights.watched_resources.update(watched)
                 insights.namespaces.clear(); insights.namespaces.update(namespaces)
                 before = dict(ensemble.watcher_tasks)
@@ -759,7 +834,15 @@ def O2(b):
             pwant = expected([presource], namespaces) if presource is not None else set()
             pkeys = [{(k.resource, k.namespace) for k in d} for d in
                      (ensemble.peering_tasks, ensemble.pinging_tasks, ensemble.conflicts_found)]
-            b.check('peering_streams_match', running('peering') == pwant and running('ping') == pwant
+            prun, pping = running('peering'), running('ping')
+            if not namespaces:      # the same unconstrained corner as above, for a cluster-scoped peering resource
+                pwant = {k for k in pwant if k[0].namespaced}
+                prun, pping = ({k for k in ks if k[0].namespaced} for ks in (prun, pping))
+                pkeys = [{k for k in ks if k[0].namespaced} for ks in pkeys]
+            must_pause = settings.peering.mandatory and presource is None
+            b.check('paused_iff_mandatory_peering_is_absent', ensemble.peering_missing.is_on() == must_pause
+                    and (operator_paused.is_on() if must_pause else presource is not None or operator_paused.is_off()), w)
+            b.check('peering_streams_match', prun == pwant and pping == pwant
                     and all(active['peering'][k] == 1 and active['ping'][k] == 1 for k in pwant)
                     and all(ks == pwant for ks in pkeys)
                     and set(ensemble.conflicts_found.values()) | {ensemble.peering_missing} == set(operator_paused), w)
@@ -780,11 +863,14 @@ def O2(b):
         return [(w, ns) for w in subsets for ns in nss]
 
     async def main():
-        modes = ['standalone', 'optional-absent', 'optional-present', 'mandatory-present']
+        modes = ['standalone', 'optional-absent', 'optional-present', 'mandatory-present', 'mandatory-absent',
+                 'mandatory-appears', 'optional-present-clusterscoped']
         for pool in ([A, B], [A, C]):
             for clusterwide in (True, False):
                 cfgs = configs(pool, clusterwide)
                 for mode in modes:
+                    if mode == 'optional-present-clusterscoped' and clusterwide:
+                        continue        # there the peering resource is cluster-scoped anyway
                     for last in cfgs:
                         await one_case(pool, mode, [last])
                         for prior in cfgs:
